@@ -26,6 +26,70 @@ theorem cut_fragments_is_source (b : Build) (fnd : Found) :
   | ok keyed =>
     simp only [ImpCut.ok_map, ImpCut.ok_bind]
     generalize ImpCut.cutOrder keyed = ordered
-    -- `for i, scffld in enumerate(ordered_scaffolds): …`
-    trace_state
-    sorry
+    -- `for i, scffld in enumerate(ordered_scaffolds): …` is the model's `foldlM` of `cutStep`
+    rw [ImpCut.cutLoop_is_forIn fnd.fragment (ordered.length - 1) _ ordered ?_ b]
+    · -- after the loop: the QC, the `cuts` counter
+      cases hl : List.foldlM (ImpCut.cutStep fnd.fragment (ordered.length - 1)) (b, [], 0) ordered with
+      | error e => rfl
+      | ok a =>
+        obtain ⟨b', subs, i⟩ := a
+        have hc : b'.cuts = b.cuts := ImpCut.cutLoop_cuts b fnd.fragment _ ordered [] 0 _ hl
+        simp only [ImpCut.ok_map, ImpCut.ok_bind, qc_sub_fragments_is_source, ImpCut.cutFinish, Int.ofNat_eq_natCast, hc]
+        by_cases hq : qcPasses fnd.fragment subs = true <;> simp only [hq] <;> rfl
+    · -- one pass
+      intro hne i sid subs store oid
+      simp only [Int.ofNat_eq_natCast, ImpCut.last_cast ordered hne, ImpCut.decide_cast_eq_zero, ImpCut.decide_cast_eq_cast,
+        ImpCut.cutFlags]
+      by_cases hs : fnd.fragment.strand = -1 <;> simp only [hs, decide_true, decide_false, if_true, if_false] <;> rfl
+
+/-! the generated function runs: the contig `a:1-100` shared by two results (store indices 0 and 1, given in the order of the store,
+    visited in the order of the contig), on either strand; a holder index outside the store; no holders at all; a contig of orientation `?` -/
+def cutExBait (s e : Int) : Fragment := { name := ['s'], start := s, stop := e, strand := 1, tags := ["Painted".toList] }
+def cutExFrag (st : Int) : Fragment := { oid := 1, name := ['a'], start := 1, stop := 100, strand := st }
+def cutExRes (st s e : Int) : Res :=
+  { o := { bait := cutExBait s e, start := 1, stop := 100, rows := [.frag (cutExFrag st)], name := "matches".toList }, added := true }
+def cutExBuild (st : Int) (lo hi : Int × Int) : Build :=
+  { namer := { autosomePrefix := [] }, nextOid := 20, joinGap := none, err := 3, cuts := 5,
+    store := [cutExRes st lo.1 lo.2, cutExRes st hi.1 hi.2] }
+def cutExRun (b : Build) (f : Fragment) (holders : List Nat) : R (List Res × Nat × Int) :=
+  Gen.Imp.BuildAssembly_cut_fragments b.store b.nextOid b.cuts f holders
+    (fun subs => Gen.Imp.BuildAssembly_qc_sub_fragments subs f)
+/-- what is looked at in the result: the extents of the results, the pieces (start, end, object id) in them, the two counters -/
+def cutExView (r : R (List Res × Nat × Int)) : Option (List (Int × Int) × List (Int × Int × Nat) × Nat × Int) :=
+  r.toOption.map (fun (st, oid, cuts) =>
+    (st.map (fun r => (r.o.start, r.o.stop)),
+     st.flatMap (fun r => r.o.rows.filterMap (fun row => match row with
+      | .frag g => some (g.start, g.stop, g.oid) | .gap _ => none)), oid, cuts))
+
+/-- plus strand, the holder of scaffold positions 41..100 first in the store: it is visited second and gets the second new object -/
+example : cutExView (cutExRun (cutExBuild 1 (41, 100) (1, 40)) (cutExFrag 1) [0, 1]) =
+    some ([(41, 100), (1, 40)], [(41, 100, 21), (1, 40, 20)], 22, 6) := by decide +kernel
+/-- minus strand: the holder of positions 41..100 has contig bases 1..60, is visited first, flags swapped -/
+example : cutExView (cutExRun (cutExBuild (-1) (1, 40) (41, 100)) (cutExFrag (-1)) [0, 1]) =
+    some ([(1, 40), (41, 100)], [(61, 100, 21), (1, 60, 20)], 22, 6) := by decide +kernel
+/-- a holder index outside the store (the default result has no rows): the key pass raises IndexError; no holders: the QC raises;
+    a contig of orientation `?` (strand 0): both holders keep the whole contig and the QC raises -/
+example : cutExRun (cutExBuild 1 (41, 100) (1, 40)) (cutExFrag 1) [0, 7] = .error .index := by rfl
+example : cutExRun (cutExBuild 0 (1, 40) (41, 100)) (cutExFrag 0) [0, 1] = .error .value := by rfl
+example : cutExRun (cutExBuild 1 (41, 100) (1, 40)) (cutExFrag 1) [] = .error .value := by rfl
+/-- the model on the first input, evaluated independently -/
+example : (cutFragments (cutExBuild 1 (41, 100) (1, 40)) { fragment := cutExFrag 1, scaffolds := [0, 1] }).toOption.map
+      (fun b' => (b'.nextOid, b'.cuts)) = some (22, 6) := by decide +kernel
+
+/-- … and `cutFragments` changes nothing else of the build state -/
+theorem cut_fragments_frame (b b' : Build) (fnd : Found) (h : cutFragments b fnd = .ok b') :
+    b' = { b with store := b'.store, nextOid := b'.nextOid, cuts := b'.cuts } :=
+  ImpCut.cutFragments_frame b b' fnd h
+
+/-- the hypothesis is met (and the unchanged fields are there to be seen) -/
+example : ∃ b', cutFragments (cutExBuild 1 (41, 100) (1, 40)) { fragment := cutExFrag 1, scaffolds := [0, 1] } = .ok b' ∧
+    b'.err = 3 ∧ b'.joinGap = none ∧ b'.multi = [] := by
+  have hs : (cutFragments (cutExBuild 1 (41, 100) (1, 40)) { fragment := cutExFrag 1, scaffolds := [0, 1] }).toOption.isSome
+      = true := by decide +kernel
+  cases h : cutFragments (cutExBuild 1 (41, 100) (1, 40)) { fragment := cutExFrag 1, scaffolds := [0, 1] } with
+  | error e => rw [h] at hs; cases hs
+  | ok b' =>
+    have hf := cut_fragments_frame _ _ _ h
+    exact ⟨b', rfl, by rw [hf]; rfl, by rw [hf]; rfl, by rw [hf]; rfl⟩
+
+end AgpTpf.C01
